@@ -1766,5 +1766,5 @@ func runC11(c *lib.Ctx) {
 	c.Ev.Coverage["observations"] = observations
 	c.Ev.Coverage["sweep_cases"] = nSweep
 	c.Ev.Coverage["random_cases"] = len(cases) - nSweep
-	c.Ev.Coverage["rule"] = "case = one history (order of defflavor/defmethod/defwhopper forms, with observations in between and a full observation block at the end: precedence list, every slot, every message on an instance of every flavor, each send also through Instance.BoundReceive); sweep = 5 small DAG shapes x 4 daemon kinds x user/vanilla message x every valid order (exhaustive, seed independent); random = DAGs with <= 5 flavors and <= 3 components, random slots/accessors/daemons, all permutations when <= 6 forms, else sampled orders (uniform / all methods late / textual); non-trivial = >= 2 mutations with an observation between them; distinct by request line"
+	c.Ev.Coverage["rule"] = "case = one history (order of defflavor/defmethod/defwhopper forms, with observations in between and a full observation block at the end: precedence list, every slot, every message on an instance of every flavor, each send also through Instance.BoundReceive); sweep = 5 small DAG shapes x 4 daemon kinds x user/vanilla message x every valid order (exhaustive, seed independent); random = DAGs with <= 5 flavors and <= 3 components, random slots/accessors/daemons, all permutations when <= 6 forms, else sampled orders (uniform / all methods late / textual); extension sweeps (every valid order, capped at 400 in the quick tier) = methods defined in another package, whopper bodies with 0/1/2 continues and changed arguments observed with an argument (A), default handlers, included flavors, initable variables (known finding); random programs also draw those features (15 % other package, 40 % whopper bodies, 15 % of flavors a default handler, 12 % included flavors); non-trivial = >= 2 mutations with an observation between them; distinct by request line"
 }
